@@ -188,6 +188,45 @@ def run(ctx):
             fdata = m.group(6).split(",") if m.group(6) else []
             if not check_reader("mid-flush (before call %d)" % k, info, written, int(m.group(2)), fdata, lines, i, prev):
                 break
+    # ---- 64-bit frame offsets across a metadata rewrite --------------------------------------
+    # the writer appends, changes some metadata and flushes it; a reader that opens the dirfile afresh at each point
+    # must never see fewer frames than a reader saw before, and exactly the frames written
+    bchunks, bmeta = [], []
+    for rep in range(6 if ctx.thorough() else 3):
+        F0 = rng.choice([2 ** 32 + 123, 5000000123, 2 ** 40 + 7, 2 ** 31 + 5])
+        spf = rng.choice([1, 2])
+        L = ["reset", "file format " + hx("/VERSION 10\n/ENDIAN little\n/ENCODING none\n/FRAMEOFFSET %d\nt RAW UINT8 %d\nk CONST UINT8 1\n" % (F0, spf)), "file t "]
+        points = []
+        nwritten = 0
+        for st in range(rng.randint(3, 6)):
+            k = rng.randint(1, 3) * spf
+            L += ["open rdwr", "put t %d %d f64 %s" % (F0 + nwritten // spf, nwritten % spf, ",".join(f64(v) for v in range(1, k + 1)))]
+            nwritten += k
+            if st % 2 == 1:
+                L += [rng.choice(["putconst k f64 %s" % f64(st), "addspec 0 " + hx("n%d CONST UINT8 %d" % (st, st))]), rng.choice(["metaflush", "flush", "rewrite -1"])]
+            L += ["close", "open rdonly", "nframes"]
+            points.append((len(L) - 1, F0 + nwritten // spf))
+            L.append("get t %d 0 1 0 u8" % F0)
+        bchunks.append(L)
+        bmeta.append((F0, spf, points))
+    bres = streams.run_chunks(harness, bchunks, "c18b")
+    for bi, (lines, out, crashed, err) in enumerate(bres):
+        F0, spf, points = bmeta[bi]
+        if crashed:
+            ctx.fail("input", "library aborted in the 64-bit frame offset stream: %s" % err[-300:], {"script": lines[:len(out) + 1], "stderr": err[-2000:]}, sig={"class": "crash", "enc": "none"})
+            continue
+        prev = 0
+        for (i, exp) in points:
+            m = re.match(r"nframes (-?\d+)", out[i])
+            nf = int(m.group(1)) if m else -1
+            ctx.evaluations += 1
+            stats["fresh_checks"] += 1
+            ctx.distinct.add(("bigoffset", F0 > 2 ** 32, spf))
+            if nf < prev or nf != exp:
+                ctx.fail("input", "fresh reader [/FRAMEOFFSET %d]: gd_nframes is %d after the writer completed %d frames (a reader saw %d before)" % (F0, nf, exp, prev),
+                         {"script": lines[:i + 1]}, sig={"class": "reader", "enc": "none", "tag": "fresh"})
+                break
+            prev = nf
     ctx.coverage.update({
         "rule": "2/8 scenarios per encoding (6 encodings): reference field of 4 types, spf 1-3, frame offsets; 2-6 writer rounds (append of whole and partial frames, then gd_flush / gd_sync / gd_raw_close); "
                 "after every writer step a long-lived read-only handle and a fresh handle report gd_nframes and read every frame below it; for gzip/bzip2/lzma a fresh reader is also run on a copy of the "
